@@ -1,0 +1,97 @@
+//go:build verif
+
+package dtlcp
+
+import (
+	"net"
+	"sort"
+)
+
+// Verification hooks (build tag `verif` only) for the fragmentation / reassembly
+// correspondence check: thin wrappers around fragmentBuffer, around the receive path
+// readHandshake on a connection in its pre-handshake state, and around the sender
+// writeHandshakeRecord. Nothing here is compiled without the tag.
+
+// VerifFragmentBuffer wraps a fragmentBuffer.
+type VerifFragmentBuffer struct{ fb *fragmentBuffer }
+
+// VerifNewFragmentBuffer calls newFragmentBuffer(totalLen).
+func VerifNewFragmentBuffer(totalLen uint32) *VerifFragmentBuffer {
+	return &VerifFragmentBuffer{fb: newFragmentBuffer(uint24(totalLen))}
+}
+
+// Add calls addFragment(offset, length, frag).
+func (v *VerifFragmentBuffer) Add(offset, length uint32, frag []byte) bool {
+	return v.fb.addFragment(uint24(offset), uint24(length), frag)
+}
+
+// Complete calls complete().
+func (v *VerifFragmentBuffer) Complete() bool { return v.fb.complete() }
+
+// Assembled calls assembled().
+func (v *VerifFragmentBuffer) Assembled() []byte { return v.fb.assembled() }
+
+// Bitmap returns the received bitmap.
+func (v *VerifFragmentBuffer) Bitmap() []byte { return v.fb.received }
+
+// VerifNewHandshakeReader returns a client connection in the state in which the handshake
+// reads its first flight (version known, epoch 0, fresh replay window), as the package's
+// own readHandshake tests construct it.
+func VerifNewHandshakeReader(pconn net.PacketConn, remote net.Addr, config *Config) *Conn {
+	c := Client(pconn, remote, config)
+	c.vers = VersionTLCP
+	c.haveVers = true
+	c.replayWindow = newReplayWindow(defaultReplayWindowSize)
+	return c
+}
+
+// VerifReadHandshake calls readHandshake(nil) and returns the raw bytes of the message it
+// delivered (what a transcript would hash).
+func VerifReadHandshake(c *Conn) (raw []byte, err error) {
+	msg, err := c.readHandshake(nil)
+	if err != nil {
+		return nil, err
+	}
+	hm, ok := msg.(handshakeMessage)
+	if !ok {
+		return nil, nil
+	}
+	raw, err = hm.marshal()
+	return raw, err
+}
+
+// VerifPendingFragment describes one pending reassembly buffer.
+type VerifPendingFragment struct {
+	Seq, Total, DataLen, MaskLen int
+}
+
+// VerifPendingFragments lists the pending reassembly buffers sorted by message_seq.
+func VerifPendingFragments(c *Conn) []VerifPendingFragment {
+	out := make([]VerifPendingFragment, 0, len(c.pendingFragments))
+	for seq, fb := range c.pendingFragments {
+		out = append(out, VerifPendingFragment{Seq: int(seq), Total: int(fb.totalLen), DataLen: len(fb.data), MaskLen: len(fb.received)})
+	}
+	sort.Slice(out, func(i, j int) bool { return out[i].Seq < out[j].Seq })
+	return out
+}
+
+// VerifHandBufLen returns the number of bytes waiting in the handshake buffer.
+func VerifHandBufLen(c *Conn) int { return c.handBuf.Len() }
+
+// VerifWriteHandshakeFinished sends a Finished-typed handshake message with the given
+// message_seq and body through writeHandshakeRecord (so: through the sender's
+// fragmentation) and returns its unfragmented encoding.
+func VerifWriteHandshakeFinished(c *Conn, seq uint16, body []byte) (full []byte, n int, err error) {
+	m := &finishedMsg{verifyData: body}
+	m.setMessageSeq(seq)
+	full, err = m.marshal()
+	if err != nil {
+		return nil, 0, err
+	}
+	full = append([]byte(nil), full...)
+	n, err = c.writeHandshakeRecord(m, nil)
+	return full, n, err
+}
+
+// VerifMaxPayloadSizeForWrite calls maxPayloadSizeForWrite(handshake) on the connection.
+func VerifMaxPayloadSizeForWrite(c *Conn) int { return c.maxPayloadSizeForWrite(recordTypeHandshake) }
